@@ -457,3 +457,238 @@ def string_properties(pm: "PyModel"):
         if len(owners) > 1 or name in clash:
             found.pop(name)
     return found
+
+
+# ---------------------------------------------------------------------------
+# call graph
+
+
+class CallGraph:
+    """Resolved call graph over repository functions.
+
+    Resolution order for a call site: module-level name through imports; `self.x` / `cls.x`
+    through the enclosing class and its bases; `<module alias>.f`; `<Class>.m`; annotated
+    parameter / dataclass-field types; finally *by name* over all repository methods with
+    that name (over-approximation, recorded as such).  Property reads `obj.attr` are edges too,
+    because properties run code.
+    """
+
+    def __init__(self, pm: PyModel):
+        self.pm = pm
+        self.edges: Dict[str, Set[str]] = {}
+        self.external: Dict[str, Set[str]] = {}     # qual -> dotted external callees / attribute reads
+        self.sites = 0
+        self.resolved = 0
+        self.byname = 0
+        self.unresolved = 0
+        self.unresolved_samples: Dict[str, int] = {}
+        self.methods_by_name: Dict[str, List[str]] = {}
+        for q, fi in pm.functions.items():
+            if fi.cls is not None:
+                self.methods_by_name.setdefault(q.rsplit(".", 1)[1], []).append(q)
+        for q, fi in pm.functions.items():
+            self._scan(q, fi)
+
+    def _add(self, a, b):
+        self.edges.setdefault(a, set()).add(b)
+
+    def _class_entry(self, ci: ClassInfo) -> List[str]:
+        out = []
+        for m in ("__init__", "__post_init__", "__new__"):
+            mem = self.pm.member(ci, m)
+            if mem is not None:
+                out.append(mem.owner + "." + m)
+        return out
+
+    def _scan(self, q, fi: FuncInfo):
+        pm = self.pm
+        self.edges.setdefault(q, set())
+        ext = self.external.setdefault(q, set())
+        local_types: Dict[str, ClassInfo] = {}
+        fn = fi.node
+        for a in fn.args.args + fn.args.kwonlyargs:
+            t = parse_ann(pm, fi.module, a.annotation)
+            while t[0] == "opt":
+                t = t[1]
+            if t[0] == "cls":
+                local_types[a.arg] = t[1]
+        local_imports: Dict[str, str] = {}
+        for n in ast.walk(fn):
+            if isinstance(n, ast.Import):
+                for a in n.names:
+                    local_imports[a.asname or a.name.split(".")[0]] = a.name if a.asname else a.name.split(".")[0]
+            elif isinstance(n, ast.ImportFrom) and not n.level:
+                for a in n.names:
+                    local_imports[a.asname or a.name] = (n.module or "") + "." + a.name
+        self._local_imports = local_imports
+        for n in ast.walk(fn):
+            if isinstance(n, (ast.Call, ast.Attribute)) and local_imports:
+                d0 = dotted(n.func if isinstance(n, ast.Call) else n)
+                if d0 and d0.split(".")[0] in local_imports and d0.split(".")[0] not in fi.module.imports:
+                    h = d0.split(".")[0]
+                    ext.add(local_imports[h] + d0[len(h):])
+            if isinstance(n, ast.Call):
+                self.sites += 1
+                f = n.func
+                if isinstance(f, ast.Name):
+                    r = pm.resolve_global(fi.module, f.id)
+                    if r is None:
+                        # nested function or builtin
+                        ext.add(f.id)
+                        self.resolved += 1
+                    elif r[0] == "func":
+                        self._add(q, r[1].qual)
+                        self.resolved += 1
+                    elif r[0] == "class":
+                        for e in self._class_entry(r[1]):
+                            self._add(q, e)
+                        self.resolved += 1
+                    elif r[0] == "external":
+                        ext.add(r[1])
+                        self.resolved += 1
+                    else:
+                        self.resolved += 1
+                elif isinstance(f, ast.Attribute):
+                    self._attr_call(q, fi, f, local_types, ext)
+                else:
+                    self.unresolved += 1
+            elif isinstance(n, ast.Attribute) and isinstance(n.ctx, ast.Load):
+                # property reads run code
+                d = dotted(n)
+                if d:
+                    head = d.split(".")[0]
+                    r = pm.resolve_global(fi.module, head) if head not in ("self", "cls") else None
+                    if r and r[0] == "external":
+                        ext.add(r[1] + d[len(head):])
+                    elif r and r[0] == "module":
+                        pass
+                for tq in self._prop_targets(fi, n, local_types):
+                    self._add(q, tq)
+
+    def _prop_targets(self, fi, n: ast.Attribute, local_types):
+        pm = self.pm
+        out = []
+        if isinstance(n.value, ast.Name) and n.value.id in ("self", "cls") and fi.cls is not None:
+            mem = pm.member(fi.cls, n.attr)
+            if mem is not None and mem.kind in ("property", "method", "classmethod", "staticmethod"):
+                out.append(mem.owner + "." + n.attr)  # property read, or method value (e.g. loader=self._load_message)
+            return out
+        if isinstance(n.value, ast.Name) and n.value.id in local_types:
+            mem = pm.member(local_types[n.value.id], n.attr)
+            if mem is not None and mem.kind == "property":
+                out.append(mem.owner + "." + n.attr)
+            return out
+        for tq in self.methods_by_name.get(n.attr, []):
+            f2 = pm.functions[tq]
+            mem = f2.cls.members.get(n.attr) if f2.cls else None
+            if mem is not None and mem.kind == "property":
+                out.append(tq)
+        return out
+
+    def _attr_call(self, q, fi, f: ast.Attribute, local_types, ext):
+        pm = self.pm
+        d = dotted(f)
+        if isinstance(f.value, ast.Name):
+            base = f.value.id
+            if base in ("self", "cls") and fi.cls is not None:
+                mem = pm.member(fi.cls, f.attr)
+                if mem is not None:
+                    self._add(q, mem.owner + "." + f.attr)
+                    self.resolved += 1
+                    return
+            if base in local_types:
+                mem = pm.member(local_types[base], f.attr)
+                if mem is not None:
+                    self._add(q, mem.owner + "." + f.attr)
+                    self.resolved += 1
+                    return
+            r = pm.resolve_global(fi.module, base)
+            if r is not None:
+                if r[0] == "module":
+                    mod = r[1]
+                    r2 = pm.resolve_global(mod, f.attr)
+                    if r2 and r2[0] == "func":
+                        self._add(q, r2[1].qual)
+                    elif r2 and r2[0] == "class":
+                        for e in self._class_entry(r2[1]):
+                            self._add(q, e)
+                    elif r2 and r2[0] == "external":
+                        ext.add(r2[1])
+                    self.resolved += 1
+                    return
+                if r[0] == "class":
+                    mem = pm.member(r[1], f.attr)
+                    if mem is not None:
+                        self._add(q, mem.owner + "." + f.attr)
+                    self.resolved += 1
+                    return
+                if r[0] == "external":
+                    ext.add(r[1] + "." + f.attr)
+                    self.resolved += 1
+                    return
+        if d:
+            head = d.split(".")[0]
+            r = pm.resolve_global(fi.module, head) if head not in ("self", "cls") else None
+            if r and r[0] == "external":
+                ext.add(r[1] + d[len(head):])
+                self.resolved += 1
+                return
+            if r and r[0] == "module":
+                # pkg.mod.func
+                parts = d.split(".")
+                mod = r[1]
+                ok = True
+                for pth in parts[1:-1]:
+                    r2 = pm.resolve_global(mod, pth)
+                    if r2 and r2[0] == "module":
+                        mod = r2[1]
+                    elif r2 and r2[0] == "class":
+                        mem = pm.member(r2[1], parts[-1])
+                        if mem is not None:
+                            self._add(q, mem.owner + "." + parts[-1])
+                        self.resolved += 1
+                        return
+                    else:
+                        ok = False
+                        break
+                if ok:
+                    r3 = pm.resolve_global(mod, parts[-1])
+                    if r3 and r3[0] == "func":
+                        self._add(q, r3[1].qual)
+                    elif r3 and r3[0] == "class":
+                        for e in self._class_entry(r3[1]):
+                            self._add(q, e)
+                    self.resolved += 1
+                    return
+        # by name over repository methods
+        cands = self.methods_by_name.get(f.attr, [])
+        if cands:
+            for c in cands:
+                self._add(q, c)
+            self.byname += 1
+        else:
+            self.unresolved += 1
+            self.unresolved_samples.setdefault(f.attr, 0)
+            self.unresolved_samples[f.attr] += 1
+
+    def reachable(self, roots) -> Dict[str, Optional[str]]:
+        """qual -> predecessor (for path printing)."""
+        pred: Dict[str, Optional[str]] = {}
+        stack = [(r, None) for r in roots]
+        while stack:
+            n, p = stack.pop()
+            if n in pred:
+                continue
+            pred[n] = p
+            for m in self.edges.get(n, ()):
+                if m not in pred:
+                    stack.append((m, n))
+        return pred
+
+    def path(self, pred, target) -> List[str]:
+        out = []
+        cur = target
+        while cur is not None:
+            out.append(cur)
+            cur = pred.get(cur)
+        return list(reversed(out))
